@@ -42,3 +42,34 @@ Print Assumptions C01_guarded_never_crashes.
 Theorem C01_guards_ok : all_guarded guards = true.
 Proof. exact guards_ok. Qed.
 Print Assumptions C01_guards_ok.
+
+(* ---- "never fails to terminate": the two hand-written loops on the compile path ----
+   The generated ANTLR automaton is outside every model (its termination is observed under a deadline). The two
+   loops the repository itself adds are modelled and proved to end, by the developments of C03 and C05/C06; they
+   are re-exported here because the clause belongs to this property. *)
+Require Verif.Front.Indent Verif.Front.IndentProps.
+Require Verif.Imports.Rules Verif.Imports.Collect Verif.Imports.TermProps Verif.Imports.Current
+        Verif.Imports.Faults Verif.Imports.FaultsProgress Verif.Imports.CurrentFaults Verif.Gen.ImportRules.
+
+(* the INDENT/DEDENT loop of getNextToken ends for every indentation stack and every target width ... *)
+Theorem C01_indent_loop_terminates : forall sp lvl fuel, (length lvl < fuel)%nat ->
+  exists lvl' o, Verif.Front.Indent.loop fuel sp lvl = Verif.Front.Indent.Done (lvl', o).
+Proof.
+  intros sp lvl fuel H. destruct (Verif.Front.IndentProps.loop_total sp lvl fuel H) as (lvl' & o & E & _).
+  exists lvl', o. exact E.
+Qed.
+Print Assumptions C01_indent_loop_terminates.
+
+(* ... and so does the token filter built on it, on every raw token sequence *)
+Theorem C01_lexer_filter_terminates : forall T rs, exists o, Verif.Front.Indent.indent_filter T rs = Verif.Front.Indent.Done o.
+Proof. exact Verif.Front.IndentProps.indent_filter_total. Qed.
+Print Assumptions C01_lexer_filter_terminates.
+
+(* the concurrent import collector ends on every finite import graph (cycles, self-imports, diamonds), under every
+   schedule, whatever files fail to be read or parsed *)
+Theorem C01_collector_terminates : forall g fl maxd root univ sched,
+  In root univ -> (forall f k, In f univ -> In k (g f) -> In k univ) ->
+  (Verif.Imports.FaultsProgress.fstep_bound g univ <= length sched)%nat ->
+  Verif.Imports.Faults.ftasks (Verif.Imports.Faults.frun Verif.Gen.ImportRules.current_rules g fl maxd root sched) = [].
+Proof. exact Verif.Imports.CurrentFaults.faults_terminate_current. Qed.
+Print Assumptions C01_collector_terminates.
